@@ -121,7 +121,9 @@ func ConcretizeNum(n J, rep int) cty.Value {
 		if !ok2 {
 			panic("bad dec " + asS(d))
 		}
-		f := new(big.Float).SetPrec(512).SetRat(r)
+		// the same decimal at several precisions (these are in general different numbers)
+		prec := []uint{512, 53, 64, 24}[rep%4]
+		f := new(big.Float).SetPrec(prec).SetRat(r)
 		return cty.NumberVal(f)
 	}
 	if d, ok := n["d"]; ok {
